@@ -437,7 +437,7 @@ func init() {
 				}})
 			}
 		}
-		us = append(us, coldUnit("nasConvert", "pco", "misc", "shared-parse"))
+		us = append(us, coldUnits(tier, "nasConvert", "pco", "misc", "shared-parse")...)
 		return us
 	}
 	core.Register(p)
